@@ -198,12 +198,12 @@ def well_formed(pair, what, strict_x=True):
     return x, y
 
 
-def match_admissible(x, xr):
+def match_admissible(x, xr, min_gap=2):
     """integral_match's documented precondition, on the observable state: every reference abscissa selects its
     own closest sample (unambiguously), and consecutive selected samples have an interior sample between them."""
     x = [float(v) for v in x]
     xr = [float(v) for v in xr]
-    if len(xr) < 2 or len(x) < 3:
+    if len(xr) < 2 or len(x) < (3 if min_gap >= 2 else 2):
         return False
     if xr[0] < x[0] - 1e-9 * (abs(x[0]) + 1) - 0.5 * (x[1] - x[0]) or xr[-1] > x[-1] + 0.5 * (x[-1] - x[-2]):
         return False
@@ -223,4 +223,4 @@ def match_admissible(x, xr):
             elif dr < dl:
                 cand = j + 1
         idx.append(cand)
-    return all(b - a >= 2 for a, b in zip(idx[:-1], idx[1:]))
+    return all(b - a >= min_gap for a, b in zip(idx[:-1], idx[1:]))
